@@ -20,7 +20,7 @@ RULE = ("cases: random polyhedra with 1-4 rows and 1-4 columns, bounds boolean /
         "satisfiable; every nested call on the intermediate polyhedra of the fixpoint loop is judged too. non-trivial: the system "
         "is feasible and at least one row or column was reported reducible; distinct by digest of (matrix, bounds)"
         ' Also: matrices stored as int8/16/32, duplicate ids in the row index, column 0 carrying a boolean variable, direct reduce_columns/reduce_rows on the receiver followed by further queries (receiver must be unchanged).')
-BUDGET = {"quick": (12, 130, 90), "thorough": (16, 2500, 1200)}
+BUDGET = {"quick": (12, 390, 90), "thorough": (16, 2500, 1200)}
 PYTEST = True     # thorough tier also runs the repository's own tests under these monitors
 MANDATORY = ["judged:reducible-row-holds-everywhere", "judged:forced-column-value", "judged:reduce-preserves-projection",
              "judged:result-variables-and-index", "judged:reduce_rows-definition", "judged:reduce_columns-definition",
